@@ -194,7 +194,18 @@ def value_sources(fn: FunctionInfo, expr: ast.expr, at: Optional[Node] = None, _
                 # a, b = x, y  -- plain parallel assignment
                 out += value_sources(fn, d.value.elts[d.index], d.node, _depth + 1, _seen)
             else:
-                out.append(("unpack", (d.value, d.index, d.node)))
+                # a, b = t  where t is a local that holds a tuple display (an inlined helper's `return x, y`)
+                done = False
+                if isinstance(d.value, ast.Name) and d.index is not None:
+                    inner = value_sources(fn, d.value, d.node, _depth + 1, set(_seen))
+                    if inner and all(k == "expr" and isinstance(p, ast.Tuple) and d.index < len(p.elts)
+                                     and not any(isinstance(e, ast.Starred) for e in p.elts) for k, p in inner):
+                        rd2 = reaching_defs(fn)
+                        for k, p in inner:
+                            out += value_sources(fn, p.elts[d.index], rd2.node_of(p) or d.node, _depth + 1, _seen)
+                        done = True
+                if not done:
+                    out.append(("unpack", (d.value, d.index, d.node)))
         elif d.kind in ("for",):
             out.append(("iter", (d.value, d.index, d.node)))
         elif d.kind == "with":
